@@ -14,8 +14,8 @@ import (
 func c07Resolutions(r *rng, k int) []spec.Resolution {
 	res := []spec.Resolution{
 		{Adv: "identity"},
-		{Adv: "reverse", T0: 1_700_000_000_000_000_000 + int64(r.intn(1<<30))},
-		{Adv: "rotate", AdvSeed: r.next(), Entropy: r.next()},
+		{Adv: "reverse", T0: 1_700_000_000_000_000_000 + int64(r.intn(1<<30)), Rate: 100_000}, // a 100x slower machine
+		{Adv: "rotate", AdvSeed: r.next(), Entropy: r.next(), Rate: 20},                         // a 50x faster one
 	}
 	for len(res) < k {
 		x := spec.Resolution{Adv: "seeded", AdvSeed: r.next()}
@@ -24,6 +24,9 @@ func c07Resolutions(r *rng, k int) []spec.Resolution {
 		}
 		if r.chance(50) {
 			x.Entropy = r.next()
+		}
+		if r.chance(50) {
+			x.Rate = pick(r, int64(10), 200, 5_000, 50_000, 2_000_000)
 		}
 		res = append(res, x)
 	}
@@ -308,7 +311,7 @@ func (cx *Ctx) c07Attribute(job *spec.Job, j int) {
 		tOnly := plain
 		tOnly.Entropy = r0.Entropy
 		eOnly := plain
-		eOnly.T0 = r0.T0
+		eOnly.T0, eOnly.Rate = r0.T0, r0.Rate
 		final := plain
 		if d2, _ := cx.differs(c, r0, tOnly, false); d2 {
 			final = tOnly
@@ -322,7 +325,7 @@ func (cx *Ctx) c07Attribute(job *spec.Job, j int) {
 
 	// map order: obtain the permutations actually applied under resolution j
 	mo := rj
-	mo.T0, mo.Entropy = r0.T0, r0.Entropy
+	mo.T0, mo.Rate, mo.Entropy = r0.T0, r0.Rate, r0.Entropy
 	if d, _ := cx.differs(c, r0, mo, false); !d {
 		// needs the combination; report unshrunk
 		cx.c07Report(c, r0, rj)
